@@ -222,8 +222,10 @@ public:
     } else if (const auto *ME = dyn_cast<MemberExpr>(S)) {
       O["member"] = ME->getMemberDecl()->getNameAsString();
       O["arrow"] = ME->isArrow();
-      if (const auto *FD = dyn_cast<FieldDecl>(ME->getMemberDecl()))
+      if (const auto *FD = dyn_cast<FieldDecl>(ME->getMemberDecl())) {
         O["rec"] = FD->getParent()->getNameAsString();
+        O["fidx"] = (int64_t)FD->getFieldIndex();
+      }
     } else if (const auto *CE = dyn_cast<CallExpr>(S)) {
       if (const FunctionDecl *FD = CE->getDirectCallee()) {
         O["callee"] = FD->getNameAsString();
